@@ -39,6 +39,10 @@ def project_list(tier):
     out.append(("ext:tree", ("f_treeamend", {}), "t/x.txt"))
     # the same, but the input is replaced (rename) by a file with other content and the same
     # size, mode and modification time: only the inode and the digest tell
+    # the input vanishes under the running steps (two of them share it in the tree project)
+    out.append(("rm:src", ("f_prodcons", {"consumer": "amend_first"}), "rm:src.txt"))
+    out.append(("rm:tree", ("f_treeamend", {}), "rm:t/x.txt"))
+    out.append(("rm:extra", ("f_amend", {"extra": "static"}), "rm:extra.txt"))
     out.append(("swap:src", ("f_prodcons", {"consumer": "amend_first"}), "swap:src.txt"))
     out.append(("swap:extra", ("f_amend", {"extra": "static"}), "swap:extra.txt"))
     # a second build in which the plan runs again and re-declares the producer (a new version)
@@ -68,6 +72,8 @@ def env_events_for(ext, ties):
                 s.ext_at = s.nev
                 if ext.startswith("swap:"):
                     s.ext_swap(ext[5:])
+                elif ext.startswith("rm:"):
+                    s.ext_remove(ext[3:])
                 else:
                     s.ext_write(ext, f"changed by user at {s.nev}\n")
             evs.append(EnvEvent(f"write {ext}", fn))
@@ -128,7 +134,11 @@ def on_start(sim, proc):
             sim.monitor.append(("start-unavailable", f"{proc.label} started with input {label} "
                                 f"detached={det} state={state}"))
         elif not sim.world.exists(label):
-            sim.monitor.append(("start-missing", f"{proc.label} started, input {label} not on disk"))
+            # a file the user removed a moment ago is not the director's doing: the command then
+            # fails on it, which the other parts of the oracle judge
+            last = [w for w in sim.world.writes if w[1] == label]
+            if not (last and last[-1][2] is None and last[-1][3] == "user"):
+                sim.monitor.append(("start-missing", f"{proc.label} started, input {label} not on disk"))
         else:
             # the producer's completion must be committed: no running command writes this path
             for other in sim.running.values():
